@@ -12,6 +12,9 @@ Decided clauses:
         whose writes are dominated by the "not yet initialised" test of a flag that sodium_init
         sets (so that after initialisation the store is unreachable), and except the lock's own
         bookkeeping written while the lock is held.
+  R19.5 randombytes_close() on the default generator resets the stream state only after it really closed the
+        /dev/urandom descriptor; on the getrandom() path the state (and with it the lock-free lazy initialiser) is
+        left alone.
 NOT decided: absence of races inside libc / the OS; results equal to sequential runs (follows
 from R19.2 for distinct buffers, but is not separately proved).
 """
@@ -239,3 +242,26 @@ def run(ctx, chk):
     for f in ri:
         w |= set(cg.globals_written_at(f))
     chk.note("non-default randombytes_internal backend (not the default generator the property speaks of) writes: %s" % sorted(w))
+    # ---- R19.5 closing the default generator does not re-arm its (unsynchronised) lazy initialiser -------------------------
+    # randombytes_sysrandom_stir_if_needed() runs the initialiser whenever stream.initialized == 0, without a lock; that is
+    # safe only because the flag is set once inside sodium_init(). randombytes_close() may therefore reset the stream state
+    # only on the path on which it really closed the /dev/urandom descriptor (the documented non-thread-safe fallback); on the
+    # getrandom() path - the default on Linux - it must leave the state alone.
+    cl = prog.fn("randombytes_sysrandom_close", "randombytes/sysrandom/randombytes_sysrandom.c")
+    if cl is None:
+        if not chk.relaxed:
+            raise AnalysisBroken("R19.5: randombytes_sysrandom_close not found")
+    else:
+        n5 = 0
+        for p in cm.paths(prog, cl):
+            closes = [e for e in p.calls("close")]
+            for e in p.stores():
+                if T.root(e.addr) != ("g", "stream"):
+                    continue
+                n5 += 1
+                okc = any(c.idx < e.idx and p.facts.zeroness(c.res) == "Z" for c in closes)
+                chk.ob("R19.5", cl, "the stream state is reset only after close(fd) on the descriptor succeeded", okc, loc=cl.loc(e.iid),
+                       detail="" if okc else "store to %s on a path without a successful close(): on the getrandom() path this re-arms "
+                       "the lock-free lazy initialiser for concurrent callers" % T.show(e.addr, cl), path=None if okc else p,
+                       key="R19.5 randombytes_sysrandom_close")
+        chk.floor("R19.5", "stores to the stream state in randombytes_sysrandom_close", n5, 2)
